@@ -602,6 +602,22 @@ static int main_(int argc, char ** argv)
       if (second) c05_case(c, av, true);
       else c04_case(c, av, true);
     }
+    // the WHOLE tangent small: translation-like coordinates of the same order as the rotation (a switch keyed on |a|
+    // instead of the rotation norm only shows here; the strata above have translations 0, O(1) or 1e3)
+    {
+      const int cnt = n >= 200 ? 60 : 30;
+      for (int k = 0; k < cnt; ++k) {
+        const double th = std::pow(10.0, -8.0 + 6.0 * static_cast<double>(k) / (cnt - 1));
+        auto av         = gen.tangent_theta(c.rng, th, 1, k % 3, 9);
+        const double f  = th * (k % 3 == 0 ? 0.3 : (k % 3 == 1 ? 1.0 : 3.0));
+        for (const auto & fl : gen.fields) {
+          if (fl.kind != TRANS) continue;
+          for (int j = 0; j < fl.n; ++j) av[static_cast<std::size_t>(fl.toff + j)] *= f;
+        }
+        if (second) c05_case(c, av, true);
+        else c04_case(c, av, true);
+      }
+    }
     if (!second) {
       for (long i = 0; i < n / 4 + 2; ++i) c04_action_case(c, gen.element(c.rng, static_cast<int>(i % kNumElemStrata), static_cast<int>(i % 3)));
     }
